@@ -609,6 +609,22 @@ def exportRvesting (p : Store) : RvGenesis := { params := exportParams p, sender
 /-- `clearClientStore` of the repaired `ToggleClient`: every entry under "clients/<chain>/" is deleted -/
 def clearClient (s : Store) (chain : Bytes) : Store := s.filter (fun kv => !(clientPrefix chain).isPrefixOf kv.1)
 
+/-- BSC `DeleteAllSigner`: every recent-signer entry of the client -/
+def bscClearSigners (s : Store) (chain : Bytes) : Store := s.filter (fun kv => !(clientKey chain kRecent).isPrefixOf kv.1)
+
+/-- `Keeper.UpgradeClient` (same client type): the new state's `UpgradeState` (Tendermint: metadata at the new latest height;
+BSC: all recent signers deleted, then signer + pending validators as in `Initialize` — the earliest consensus state is pruned
+only when expired, which the model takes as not the case; ETH: header index + root main; TSS: nothing), then the client state,
+then — ONLY when the client is not a TSS client (/repo 6c33891) — the consensus state at the new latest height -/
+def upgradeClient (s : Store) (chain cblob consblob : Bytes) (h : Height) (m : InitMeta) : Store :=
+  match m with
+  | .tm now => setConsensusState (setClientState (tmSetMeta s chain h now) chain cblob) chain h consblob
+  | .bsc signer pending =>
+    setConsensusState (setClientState (bscSetPending (bscSetSigner (bscClearSigners s chain) chain h signer) chain pending) chain cblob) chain h consblob
+  | .eth hash root idx =>
+    setConsensusState (setClientState (ethSetRoot (ethSetIndex s chain hash h.2 idx) chain root h.2 hash) chain cblob) chain h consblob
+  | .tss => setClientState s chain cblob
+
 /-- does the `Initialize` metadata belong to the client type? -/
 def InitMeta.tyOk : InitMeta → Ty → Bool
   | .tm _, .tm => true
@@ -628,7 +644,8 @@ inductive KOp where
   | relayer (blob : Bytes)
   | create (chain cblob consblob : Bytes) (h : Height) (m : InitMeta)      -- CreateClient: no client for the chain yet
   | toggle (chain cblob consblob : Bytes) (h : Height) (m : InitMeta)      -- ToggleClient: clears the client store first
-  | clientSameType (chain blob : Bytes)                                    -- UpdateClient / UpgradeClient: same client type
+  | upgrade (chain cblob consblob : Bytes) (h : Height) (m : InitMeta)     -- UpgradeClient: same client type
+  | clientSameType (chain blob : Bytes)                                    -- UpdateClient: same client type
   | cons (chain : Bytes) (h : Height) (blob : Bytes)
   | tmMeta (chain : Bytes) (h : Height) (t : UInt64)
   | tmPrune (chain : Bytes) (h : Height)
@@ -657,6 +674,8 @@ def applyOp (s : Store) : KOp → Store
   | .toggle chain cb sb h m =>
     if createGuard chain cb sb m && (get s (clientKey chain kClientState)).isSome
     then createClient (clearClient s chain) chain cb sb h m else s
+  | .upgrade chain cb sb h m =>
+    if createGuard chain cb sb m && tyOfChain s chain == clientTy cb then upgradeClient s chain cb sb h m else s
   | .clientSameType chain blob =>
     if noSlash chain && (clientTy blob).isSome && tyOfChain s chain == clientTy blob then setClientState s chain blob else s
   | .cons chain h blob => if noSlash chain && (consTy blob).isSome then setConsensusState s chain h blob else s
@@ -679,10 +698,19 @@ def InitMeta.initOk : InitMeta → Bool
   | .bsc _ pending => !pending.isEmpty
   | _ => true
 
+/-- `Initialize` / `UpgradeState` of the Tendermint, BSC and ETH clients assert that the consensus state is of their own type;
+the TSS client accepts anything (and, since /repo 6c33891, no consensus state is stored for it whatever the proposal carries) -/
+def consOk (cblob consblob : Bytes) : Bool :=
+  match clientTy cblob with
+  | some .tss => true
+  | some ty => consTy consblob == some ty
+  | none => false
+
 /-- a create-client proposal: `ClientState.Validate()` (external, incl. the repaired "height 0-0 rejected" of BSC / ETH),
 then `Keeper.CreateClient`; a failing `Initialize` reverts the transaction -/
 def createClientO (s : Store) (chain cblob : Bytes) (cvalid : Bool) (consblob : Bytes) (h : Height) (m : InitMeta) : Outcome Store :=
   if !cvalid then .err "client state invalid"
+  else if !consOk cblob consblob then .err "consensus state type"
   else if !m.initOk then .err "initialize"
   else .ok (createClient s chain cblob consblob h m)
 
@@ -694,8 +722,21 @@ def toggleClientO (s : Store) (chain cblob : Bytes) (cvalid : Bool) (consblob : 
     | none => .err "client not found"
     | some cv =>
       if clientTy cv == clientTy cblob then .err "same type"
+      else if !consOk cblob consblob then .err "consensus state type"
       else if !m.initOk then .err "initialize"
       else .ok (createClient (clearClient s chain) chain cblob consblob h m)
+
+/-- an upgrade-client proposal: the client must exist and be of the SAME type -/
+def upgradeClientO (s : Store) (chain cblob : Bytes) (cvalid : Bool) (consblob : Bytes) (h : Height) (m : InitMeta) : Outcome Store :=
+  if !cvalid then .err "client state invalid"
+  else
+    match get s (clientKey chain kClientState) with
+    | none => .err "client not found"
+    | some cv =>
+      if clientTy cv != clientTy cblob then .err "other type"
+      else if !consOk cblob consblob then .err "consensus state type"
+      else if !m.initOk then .err "upgrade state"
+      else .ok (upgradeClient s chain cblob consblob h m)
 
 /-- the xibc store right after `InitGenesis` of a fresh chain: only the native chain name -/
 def freshStore (n : Bytes) : Store := setChainName [] n
